@@ -116,6 +116,44 @@ def handleCore (st : St) (l : Line) : Option (St × List String) := do
       | "retrieve_array_subset" => pure (st, [optVal (cfg.retrieveArraySubset st.st (← parseSubset (← l.get "r")))])
       | "keys" => pure (st, ["keys " ++ (if st.st.isEmpty then "~" else ",".intercalate (st.st.keys.map String.ofList))])
       | "reopen" => pure (st, ["ok"])
+      -- C06 routes: every route must return what the plain model read of the same region returns
+      | "cache_new" => pure (st, ["ok"])
+      | "shard_cache_new" => pure (st, ["ok"])
+      | "pd" =>
+        let c ← l.nl "c"
+        let rs ← ((← l.get "rs").splitOn "|").mapM parseSubset
+        let parts := rs.map (fun r => cfg.retrieveChunkSubset st.st c r)
+        if parts.all Option.isSome then
+          pure (st, ["val " ++ "|".intercalate (parts.map (fun p => showElems (p.getD [])))])
+        else pure (st, ["err"])
+      | "typed_chunk" => pure (st, [optVal (cfg.retrieveChunk st.st (← l.nl "c")), "untyped"])
+      | "typed_subset" => pure (st, [optVal (cfg.retrieveArraySubset st.st (← parseSubset (← l.get "r"))), "untyped"])
+      | "typed_chunk_subset" => pure (st, [optVal (cfg.retrieveChunkSubset st.st (← l.nl "c") (← parseSubset (← l.get "r"))), "untyped"])
+      | "typed_chunks" => pure (st, [optVal (cfg.retrieveChunks st.st (← parseSubset (← l.get "box"))), "untyped"])
+      | "nd_subset" => pure (st, [optVal (cfg.retrieveArraySubset st.st (← parseSubset (← l.get "r"))), "untyped"])
+      | "cached_chunk" => pure (st, [optVal (cfg.retrieveChunk st.st (← l.nl "c"))])
+      | "cached_chunks" => pure (st, [optVal (cfg.retrieveChunks st.st (← parseSubset (← l.get "box")))])
+      | "cached_chunk_subset" => pure (st, [optVal (cfg.retrieveChunkSubset st.st (← l.nl "c") (← parseSubset (← l.get "r")))])
+      | "cached_subset" => pure (st, [optVal (cfg.retrieveArraySubset st.st (← parseSubset (← l.get "r")))])
+      | "sharded_subset" => pure (st, [optVal (cfg.retrieveArraySubset st.st (← parseSubset (← l.get "r")))])
+      | "inner_chunk" =>
+        let ic ← l.nl "ic"; let ish ← l.nl "ishape"
+        let r : Subset := ⟨zipMul ic ish, ish⟩
+        let c ← cfg.grid.chunkIndices r.start
+        let cs ← cfg.chunkSubset c
+        pure (st, [optVal (cfg.retrieveChunkSubset st.st c (r.relativeTo cs.start))])
+      | "inner_chunks" =>
+        let ib ← parseSubset (← l.get "ibox"); let ish ← l.nl "ishape"
+        let r : Subset := ⟨zipMul ib.start ish, zipMul ib.shape ish⟩
+        if r.isEmpty then pure (st, ["val ~"]) else
+        pure (st, [optVal (cfg.retrieveArraySubset st.st r)])
+      | "inner_shape" =>
+        let sh := (l.get "sh") == some "1"
+        let eff ← l.get "eff"
+        let grid := if eff == "none" then (cfg.grid.gridShape cfg.shape)
+          else (parseNl eff).map (fun e => List.zipWith (fun a c => (a + c - 1) / c) cfg.shape e)
+        pure (st, ["val sharded=" ++ showBool sh ++ " eff=" ++ (if sh then eff else "none") ++ " grid=" ++
+          (match (if sh then grid else cfg.grid.gridShape cfg.shape) with | some g => showNl g | none => "none")])
       | _ => none
 
 /-- model step + cross-check of the model against the abstract specification of C01 (they are proved equal;
